@@ -634,7 +634,8 @@ pub struct FEv {
     pub t: u64,
     /// udp-bind | udp-send | udp-send-error | udp-deliver | udp-recv-error | udp-close |
     /// tcp-connect | tcp-connected | tcp-refused | tcp-connect-timeout | tcp-connect-abandoned |
-    /// tcp-query | tcp-deliver | tcp-eof | tcp-reset | tcp-close
+    /// tcp-query | tcp-deliver | tcp-eof | tcp-reset | tcp-close | tcp-id-collision |
+    /// history part: tcp-inject | tcp-write-error | tcp-write-after-dead
     pub kind: &'static str,
     pub server: usize,
     /// 1 = UDP, 2 = TCP
@@ -1039,6 +1040,8 @@ struct TcpSt {
     told_dead: bool,
     /// hickory dropped the stream
     dropped: bool,
+    /// (message id, exchange number) of the queries this connection will still reply to
+    unanswered: Vec<(u16, u32)>,
 }
 
 #[derive(Clone, Debug)]
@@ -1071,6 +1074,7 @@ impl FsTcp {
             doomed: false,
             told_dead: false,
             dropped: false,
+            unanswered: Vec::new(),
         }));
         if !warm {
             net.st.lock().unwrap().streams.push(StreamReg { server, id, st: st.clone() });
@@ -1092,7 +1096,14 @@ impl FsTcp {
             return Ok(());
         };
         let q = qidx(&query.name);
-        self.net.ev("tcp-query", self.server, 2, self.id, q, seq, "", 0);
+        self.net.ev("tcp-query", self.server, 2, self.id, q, seq, if st.unanswered.is_empty() { "" } else { "while-earlier-query-unanswered" }, 0);
+        // hickory's multiplexer draws 16-bit message ids at random and frees the id of a request
+        // its requester abandoned at once; a new query may by chance (2^-16) carry the id of an
+        // earlier query of this connection whose reply is still to come, and the multiplexer
+        // matches replies by id only. Such runs are marked (see fullo.rs, don't-cares).
+        if st.unanswered.iter().any(|(i, _)| *i == id) {
+            self.net.ev("tcp-id-collision", self.server, 2, self.id, q, seq, "", 0);
+        }
         {
             let mut n = self.net.st.lock().unwrap();
             let e = n.outstanding.entry(self.id).or_insert((0, 0));
@@ -1127,12 +1138,16 @@ impl FsTcp {
         if let Reply::Answer { l } = reply {
             let fin = self.net.st.lock().unwrap().after_answer.remove(&self.server);
             if let Some(g) = fin {
+                st.unanswered.push((id, seq));
                 st.inbox.push_back((now + ms(l), TcpItem::Bytes { bytes: frame(answer_bytes(id, &query, self.server, 2, q, seq, false)), what: "answer", q, seq }));
                 st.inbox.push_back((now + ms(l + g), TcpItem::Eof));
                 st.doomed = true;
                 self.net.ev("tcp-inject", self.server, 2, self.id, q, seq, "fin-after-answer", 0);
                 return Ok(());
             }
+        }
+        if matches!(reply, Reply::Answer { .. } | Reply::Nx { .. }) {
+            st.unanswered.push((id, seq));
         }
         match reply {
             Reply::Answer { l } => st.inbox.push_back((now + ms(l), TcpItem::Bytes { bytes: frame(answer_bytes(id, &query, self.server, 2, q, seq, false)), what: "answer", q, seq })),
@@ -1167,6 +1182,7 @@ impl futures::io::AsyncRead for FsTcp {
                 let (_, item) = st.inbox.pop_front().unwrap();
                 match item {
                     TcpItem::Bytes { bytes, what, q, seq } => {
+                        st.unanswered.retain(|(_, s)| *s != seq);
                         st.rbuf.extend(bytes);
                         this.net.ev("tcp-deliver", this.server, 2, this.id, q, seq, what, 0);
                         let mut n = this.net.st.lock().unwrap();
